@@ -548,6 +548,12 @@ func (g *ProgGen) Stmt() (string, bool) {
 					return a + "[0] = " + g.Int(), false
 				case 1:
 					if g.o.Methods {
+						if g.r.Chance(1, 3) {
+							// arrays with spare capacity, then two concatenations of the same operand
+							n1, n2 := Pick(g.r, []string{"cat1", "lst"}), Pick(g.r, []string{"cat2", "xs"})
+							g.arrs = addUniq(addUniq(g.arrs, n1), n2)
+							return a + ".push(" + g.lit() + "); " + n1 + " = " + a + " + [" + g.lit() + "]; " + n2 + " = " + a + " + [" + g.lit() + ", " + g.lit() + "]; " + n1, false
+						}
 						return a + ".push(" + g.Int() + ")", false
 					}
 				case 2:
@@ -666,7 +672,20 @@ func (g *ProgGen) Stmt() (string, bool) {
 			}
 		case 17:
 			if g.o.Computed && len(g.comps) > 0 && g.inFunc == 0 {
-				return "&" + Pick(g.r, g.comps) + ".bonus = " + g.lit(), false
+				c := Pick(g.r, g.comps)
+				switch g.r.Intn(4) {
+				case 0:
+					// the computed value itself (not its result) stored elsewhere: the same value reachable twice
+					n := Pick(g.r, []string{"cur", "alias1"})
+					return n + " = &" + c, false
+				case 1:
+					if g.o.Containers {
+						n := Pick(g.r, arrNames)
+						g.arrs = addUniq(g.arrs, n)
+						return n + " = [&" + c + ", &" + c + ", 1]", false
+					}
+				}
+				return "&" + c + ".bonus = " + g.lit(), false
 			}
 		case 18:
 			if g.o.Macros {
